@@ -34,6 +34,21 @@ END_SENDERS = [(f'{SB}.SubscriptionBase.send_notification_end_message', 'post_me
                 'async_post_message_to')]
 
 
+def duration_fraction_is_decimal(ctx, rule):
+    """C08.R3 part, shared with C18 (durations round-trip within the microsecond resolution)."""
+    repo = ctx.repo
+    # the requested duration is parsed as a decimal number of seconds: the fraction digits are never read as an integer count
+    pd = repo.func('sdc11073.xml_types.isoduration.parse_duration')
+    from engine.deps import Deps
+    dpd = Deps(pd.node)
+    bad = [unparse(c) for c in calls_in(pd.node, 'int') if c.args and any(
+        'fraction' in s_ for s_ in dpd.sources(c.args[0]) | {unparse(c.args[0])})]
+    ctx.ob(rule, 'fraction of a duration is a decimal fraction', not bad,
+           'parse_duration reads seconds and fraction as one decimal number' if not bad else
+           f'parse_duration converts the fraction digits with {bad[0]}: more than six digits (PT1.500000000S) become a '
+           f'microsecond count far above one second - the granted expiry exceeds the requested one', fi=pd)
+
+
 def run(ctx):  # noqa: C901, PLR0912, PLR0915
     repo = ctx.repo
     ctx.rule('C08.R1', 'send dominated by is_valid and unsubscribed_at is None (both senders); recipients by matches()')
@@ -284,16 +299,7 @@ def run(ctx):  # noqa: C901, PLR0912, PLR0915
            'tabs (legal for an xs:list) is accepted but matches no report', fi=ab)
     from .c09 import gathers_isolate_subscribers
     gathers_isolate_subscribers(ctx, 'C08.R2')
-    # the requested duration is parsed as a decimal number of seconds: the fraction digits are never read as an integer count
-    pd = repo.func('sdc11073.xml_types.isoduration.parse_duration')
-    from engine.deps import Deps
-    dpd = Deps(pd.node)
-    bad = [unparse(c) for c in calls_in(pd.node, 'int') if c.args and any(
-        'fraction' in s_ for s_ in dpd.sources(c.args[0]) | {unparse(c.args[0])})]
-    ctx.ob('C08.R3', 'fraction of a duration is a decimal fraction', not bad,
-           'parse_duration reads seconds and fraction as one decimal number' if not bad else
-           f'parse_duration converts the fraction digits with {bad[0]}: more than six digits (PT1.500000000S) become a '
-           f'microsecond count far above one second - the granted expiry exceeds the requested one', fi=pd)
+    duration_fraction_is_decimal(ctx, 'C08.R3')
     # ------------------------------------------------------------------ R5
     for q in (f'{SB}.SubscriptionsManagerBase._end_all_subscriptions',
               'sdc11073.provider.subscriptionmgr_async.BICEPSSubscriptionsManagerBaseAsync._end_all_subscriptions'):
@@ -364,6 +370,27 @@ def run(ctx):  # noqa: C901, PLR0912, PLR0915
         'self.notify_to_address = subscribe_request.Delivery.NotifyTo.Address' in src
     ctx.ob('C08.R5', 'EndTo / NotifyTo taken from the request', ok,
            'the subscription stores EndTo and NotifyTo of the Subscribe request', fi=init)
+
+    # the connection pool forgets a client together with its last user: a later subscription of the same NotifyTo host
+    # gets a new client, never the closed (and, after a broken connection, error-latched) one of an ended subscription
+    fu = repo.func('sdc11073.pysoap.soapclientpool.SoapClientPool.forget_usr')
+    gf = cfg_of(fu)
+    from .c01 import _nonempty_fact
+    removes = [n for n, c in gf.nodes_calling('remove') if 'usr_idents' in unparse(c.func)]
+    pops = [n for n in gf.real_nodes() if
+            any(call_name(c) in ('pop', '__delitem__') and '_soap_clients' in unparse(c.func) for c in n.calls()) or
+            (n.kind == 'stmt' and isinstance(n.stmt, ast.Delete) and '_soap_clients' in unparse(n.stmt))]
+    users_left = [b for b in gf.nodes if b.kind == 'branch' and b.test is not None and 'usr_idents' in unparse(b.test) and
+                  _nonempty_fact(unparse(b.test), b.label)]
+    if not removes:
+        raise AnalysisError('C08.R5: forget_usr does not remove the user from entry.usr_idents any more')
+    stale = [r for r in removes if gf.path_exists(r, gf.exit, avoid=pops + users_left, normal_only=True)]
+    ctx.ob('C08.R5', 'pool entry ends with its last user', bool(pops) and not stale,
+           'forget_usr: once the last user of a net location is gone the entry leaves the pool on every path' if pops and not stale
+           else 'forget_usr: a path from the removal of the last user to the end of the function leaves the entry (and its '
+           'closed client) in the pool: the next subscription with the same NotifyTo host:port is given the closed client, its '
+           'first notification fails without touching the network and it is dropped as undeliverable', fi=fu,
+           node=stale[0].stmt if stale else None)
 
     # ------------------------------------------------------------------ R6
     ac = repo.cls('sdc11073.xml_types.actions.Actions')
